@@ -76,9 +76,9 @@ def _norm_missing(v, is_dict):
 
 
 def _same_result(name, a, b):
-    from oracles import UNORDERED
+    from oracles import UNORDERED, unordered_eq
     if name in UNORDERED and isinstance(a, list) and isinstance(b, list):
-        return len(a) == len(b) and sorted(map(repr, a)) == sorted(map(repr, b))
+        return unordered_eq(a, b)
     if isinstance(a, bool) or isinstance(b, bool):
         return a is b
     return strict_eq(a, b)
